@@ -24,7 +24,7 @@ class ConcGen:
             parts = name.split(".")
             for cut in range(1, len(parts)):
                 suffix = ".".join(parts[cut:])
-                cands = [k for k in self.model if k.startswith("x:") and k.endswith("." + suffix)]
+                cands = [k for k in self.model if (k.startswith("x:") or k.startswith("hit:")) and k.endswith("." + suffix)]
                 if cands and parts[cut - 1].isdigit() and int(parts[cut - 1]) == self.generic_index:
                     v = self.model[sorted(cands)[0]]
                     break
@@ -126,6 +126,24 @@ def make_symgen():
             _ne_cache[pattern] = sol.check() == z3.unsat
         return _ne_cache[pattern]
 
+    _edge_cache = {}
+
+    def edge_blank(pattern):
+        """(can a string of the pattern start with white space, can it end with white space) - decided by z3"""
+        if pattern not in _edge_cache:
+            rx = regex_to_z3(pattern)
+            s = z3.String("edge!s")
+            ws = z3.Union(*[z3.Re(c) for c in smt.WSCHARS])
+            anyc = z3.Star(z3.AllChar(z3.ReSort(smt.S)))
+            res = []
+            for probe in (z3.Concat(ws, anyc), z3.Concat(anyc, ws)):
+                sol = z3.Solver()
+                sol.set("timeout", 3000)
+                sol.add(z3.InRe(s, rx), z3.InRe(s, probe))
+                res.append(sol.check() != z3.unsat)
+            _edge_cache[pattern] = tuple(res)
+        return _edge_cache[pattern]
+
     class SymGen:
         symbolic = True
 
@@ -153,6 +171,11 @@ def make_symgen():
                 self.I.charsets[name] = alphabet_of(pattern)
                 if never_empty(pattern):
                     self.I.nonempty = set(self.I.nonempty) | {name}
+                    lead, trail = edge_blank(pattern)
+                    if not lead:
+                        self.I.no_lead_ws = set(self.I.no_lead_ws) | {name}
+                    if not trail:
+                        self.I.no_trail_ws = set(self.I.no_trail_ws) | {name}
             return SStr(t)
 
         def int(self, name, lo=None, hi=None, default=0):
